@@ -523,6 +523,84 @@ func init() {
 				}
 			}
 		}
+		// the size sweep (enum/size.go): every width and depth up to the bound; the directory holds exactly the tree, the
+		// tree minus its last path, the tree plus one entry in the middle
+		{
+			upTo, far, deepTo, deepFar := 140, 1030, 130, 260 // (file-system work per case: widths get a smaller every-integer bound here than in C01-C05)
+			if c.Thorough() {
+				upTo, far, deepTo, deepFar = 1100, 2100, 300, 520
+			}
+			c.Bound("size_sweep_width_every_integer_up_to", fmt.Sprint(upTo))
+			c.Bound("size_sweep_depth_every_integer_up_to", fmt.Sprint(deepTo))
+			c.Bound("size_sweep_depth_power_of_two_neighbours_up_to", fmt.Sprint(deepFar))
+			sweep := func(s enum.SizeShape) {
+				if !c.Take() || c.Expired() {
+					return
+				}
+				f := model.Merge(enum.Build(s.D, s.Names))
+				if !distinctRoots(f) {
+					return
+				}
+				for _, nm := range s.Names {
+					if strings.ContainsAny(nm, "/") {
+						return
+					}
+				}
+				var all []string
+				for _, rt := range f {
+					all = append(all, model.Paths(rt)...)
+				}
+				full, short, more := map[string]byte{}, map[string]byte{}, map[string]byte{}
+				for i, p := range all {
+					full[p], more[p] = 'd', 'd'
+					if i < len(all)-1 {
+						short[p] = 'd'
+					}
+				}
+				more[all[len(all)/2]+"/_extra"] = 'd'
+				c.StateN(1)
+				c.Nontrivial()
+				c.Inc("size_sweep_cases")
+				route := "md"
+				if len(f) == 1 && s.Size%2 == 1 {
+					route = "root"
+				}
+				extra := ""
+				if len(f) == 1 && s.Size%3 == 2 {
+					extra = "massive"
+				}
+				strict := s.Size%2 == 0
+				c08Case(c, c08Replay{Kind: "c08", Depth: s.D, Names: s.Names, State: full, Strict: true, Form: "abs", Route: route, Extra: extra})
+				c08Case(c, c08Replay{Kind: "c08", Depth: s.D, Names: s.Names, State: short, Strict: strict, Form: "abs", Route: route})
+				c08Case(c, c08Replay{Kind: "c08", Depth: s.D, Names: s.Names, State: more, Strict: true, Form: "abs", Route: "md", Extra: extra})
+			}
+			enum.DeepShapes(enum.Sizes(deepTo, deepFar), sweep)
+			enum.WideShapes(enum.Sizes(upTo, far), sweep)
+			enum.TwinShapes(sweep)
+		}
+		// entries the tree does not name, called what file managers, version control and editors call their own files: in
+		// strict mode each of them is a difference like any other, at every place, as a directory and as a file
+		{
+			special := []string{".DS_Store", "Thumbs.db", "desktop.ini", ".git", ".gitkeep", ".gitignore", ".svn", "node_modules", "__pycache__", ".idea", ".vscode", "lost+found", ".#lock", "a~", ".a.swp", ".hidden", "core", "%s", "100%", "--", "-", "*"}
+			d, names := []int{1, 2, 3, 2}, []string{"a", "b", "c", "d"}
+			for si, sp := range special {
+				if !c.Take() || c.Expired() {
+					continue
+				}
+				for _, at := range []string{"a", "a/b", "a/b/c", "a/d"} {
+					for _, kind := range []byte{'d', 'f'} {
+						st := map[string]byte{"a": 'd', "a/b": 'd', "a/b/c": 'd', "a/d": 'd', at + "/" + sp: kind}
+						c.StateN(1)
+						c.Nontrivial()
+						c.Inc("special_extra_entries")
+						for _, strict := range []bool{true, false} {
+							c08Case(c, c08Replay{Kind: "c08", Depth: d, Names: names, State: st, Strict: strict, Form: "abs", Route: []string{"md", "root"}[si%2]})
+							c08Case(c, c08Replay{Kind: "c08", Depth: d, Names: names, State: st, Strict: strict, Form: "abs", Route: []string{"root", "md"}[si%2], Extra: "massive"})
+						}
+					}
+				}
+			}
+		}
 		// histories: Mkdir(A, exts) then Verify(B), all pairs of trees n <= 3 over {a, b.go}
 		type tr struct {
 			d     []int
